@@ -3,6 +3,11 @@
            ops  = [0 k]      k calls of BalanceRR.Balance(WrrSmooth)        -> observation [p1 .. pk] (id, -1 = error)
                 | [1 conf]   BalanceRR.Update(conf)                          -> observation []
                 | [2 id b]   SetAvail(b) on the backend with that id         -> observation []
+                | [3 t]      BalanceRR.SetSlowStart(t seconds)               -> observation []
+                | [4 id e]   clock seam: e ms have passed since the slow-start ramp of backend id began -> []
+                | [5 id]     SetRestart(true) on backend id                  -> observation []
+   Inputs without operations 3..5 are evaluated by the plain model (run_ops / check_ops / spec_ops); inputs with them
+   by the slow-start extension (run2 / check2 / spec2), which coincides with the plain one while slow start is off.
    output: list of the per-operation observations. *)
 From Coq Require Import List ZArith Bool.
 From Bfe Require Import lib.Val model.Swrr.
@@ -19,6 +24,9 @@ Definition dec_op (v : val) : option op :=
   | VL [VZ 0; VZ k] => if (0 <=? k) && (k <=? max_k) then Some (OPick (Z.to_nat k)) else None
   | VL [VZ 1; c] => match dec_conf c with Some conf => Some (OUpdate conf) | None => None end
   | VL [VZ 2; VZ id; VZ b] => Some (OAvail id (negb (b =? 0)))
+  | VL [VZ 3; VZ t] => if (0 <=? t) && (t <=? 1000000) then Some (OSetSS t) else None
+  | VL [VZ 4; VZ id; VZ e] => if (0 <=? e) && (e <=? 10^11) then Some (OElapsed id e) else None
+  | VL [VZ 5; VZ id] => Some (ORestart id)
   | _ => None
   end.
 Definition dec_in (v : val) : option (list (Z * Z) * list op) :=
@@ -35,25 +43,33 @@ Definition dec_out (v : val) : option (list (list Z)) :=
 
 Definition run_C01 (i : val) : val :=
   match dec_in i with
-  | Some (conf, ops) => VL (map vLZ (run_ops (init conf) ops))
+  | Some (conf, ops) =>
+    if existsb is_ss_op ops then VL (map vLZ (run2 smooth (0, init2 conf) ops))
+    else VL (map vLZ (run_ops (init conf) ops))
   | None => VErr 0
   end.
 (* trace validation: every implementation pick holds a maximal current in the model state that is
    advanced with the implementation's own picks *)
 Definition agree_C01 (i o : val) : bool :=
   match dec_in i, dec_out o with
-  | Some (conf, ops), Some obs => check_ops (init conf) ops obs
+  | Some (conf, ops), Some obs =>
+    if existsb is_ss_op ops then check2 smooth_follow (0, init2 conf) ops obs
+    else check_ops (init conf) ops obs
   | _, _ => false
   end.
 (* the property: in every stable segment every window of A = sum of eligible weights consecutive picks
    contains each eligible backend exactly weight-many times *)
 Definition prop_C01 (i o : val) : bool :=
   match dec_in i, dec_out o with
-  | Some (conf, ops), Some obs => spec_ops (cfg_init conf) [] ops obs
+  | Some (conf, ops), Some obs =>
+    if existsb is_ss_op ops then spec2 (0, init2 conf) None [] ops obs
+    else spec_ops (cfg_init conf) [] ops obs
   | _, _ => false
   end.
 Definition kf_C01 (i : val) : Z :=
   match dec_in i with
-  | Some (conf, ops) => if carried (init conf) ops then 1 else 0
+  | Some (conf, ops) =>
+    if existsb is_ss_op ops then (if carried2 (0, init2 conf) None ops then 1 else 0)
+    else if carried (init conf) ops then 1 else 0
   | None => 0
   end.
